@@ -26,24 +26,28 @@ def case(g, tier, ci):
         victim = r.choice([o for o in ins if o["fn"] != "waituntil"] or ins)
         if victim["fn"] != "waituntil":
             victim["dur"] = enc(r.choice([0.0, 0.4, 1.0, 1.4, 0.6]) / info["SR"])
-    if r.random() < 0.15:
-        # integer durations with a non-integer sample rate
+    if r.random() < 0.15 and not any(o["fn"] == "waituntil" for o in ins):
+        # integer durations with a non-integer sample rate; durations stay >= 0.1 sample away from a rounding
+        # tie (the property's domain), and the absolute markers (generated for the old rate) are dropped
+        newSR = r.choice([2.4, 7.3, 1.7])
         for o in ins:
-            if o["fn"] != "waituntil":
-                o["dur"] = r.randint(1, 6)
+            o["dur"] = r.choice([d for d in range(1, 7) if abs(d * newSR - round(d * newSR)) <= 0.4 and round(d * newSR) >= 2])
         for o in ops:
             if o["op"] == "bp.setSR":
-                o["SR"] = enc(r.choice([2.4, 2.5, 7.3, 1.7]))
+                o["SR"] = enc(newSR)
+        ops[:] = [o for o in ops if o["op"] != "bp.setMarker"]
+        info["SR"] = newSR
+        info["intdur"] = True
     ops += [{"op": "el.new", "id": "e"}, {"op": "el.addBP", "id": "e", "ch": 1, "bp": "b"},
             {"op": "el.getArrays", "id": "e", "time": True}, {"op": "el.getArrays", "id": "e", "time": False}]
-    if r.random() < 0.2:
+    if r.random() < 0.2 and not info.get("intdur"):     # (with int durations the TOTAL may sit at a rounding tie)
         # the element was queried (SR/points/duration are cached), then its channel is replaced by the same
         # blueprint at another sample rate: forging must use the new blueprint's rate
-        ops += [{"op": r.choice(["el.SR", "el.points", "el.duration"]), "id": "e"},
+        ops += [{"op": r.choice(["el.SR", "el.duration", "el.validate"]), "id": "e"},
                 {"op": "bp.copy", "id": "b", "to": "bx"}, {"op": "bp.setSR", "id": "bx", "SR": enc(info["SR"] * r.choice([10, 2]))},
                 {"op": "el.addBP", "id": "e", "ch": 1, "bp": "bx"}, {"op": "el.getArrays", "id": "e", "time": True, "_pair2": True},
-                {"op": "el.points", "id": "e"}, {"op": "el.addBP", "id": "e", "ch": 1, "bp": "b"}]
-    if any(o["fn"] == "waituntil" for o in ins) and r.random() < 0.6:
+                {"op": "el.addBP", "id": "e", "ch": 1, "bp": "b"}]
+    if any(o["fn"] == "waituntil" for o in ins) and r.random() < 0.6 and not info.get("intdur"):
         # forge, edit a segment of the SAME element, forge again: the stored blueprint's waituntil must still adapt
         from props.c20 import seg_table
         tbl = seg_table([o for o in ops if o.get("id") == "b"])
@@ -52,7 +56,7 @@ def case(g, tier, ci):
         if before:
             nm = r.choice(before)[0]
             ops += [{"op": "el.changeDur", "id": "e", "ch": 1, "name": nm, "dur": enc(r.randint(2, 6) / info["SR"]), "all": False},
-                    {"op": "el.getArrays", "id": "e", "time": True, "_pair2": True}, {"op": "el.points", "id": "e"},
+                    {"op": "el.getArrays", "id": "e", "time": True, "_pair2": True},
                     {"op": "el.addBP", "id": "e", "ch": 1, "bp": "b"}]
     # a different history producing the same blueprint
     ops.append({"op": "bp.new", "id": "h"})
